@@ -45,6 +45,8 @@ PROPS["C11"] = dict(l1_ops=l1.UNARY_T + l1.UNARY_G + l1.BINARY_GG + l1.BINARY_GT
 PROPS["C07"] = dict(l1_ops=["hat", "vee", "generator", "innerWeights", "bracket", "inner", "sqwnorm", "wnorm"],
                     l2="C07", n_l1=(400, 6000), n_l2=(80, 2000))
 
+PROPS["C19"] = dict(l1_ops=l1.ALIASES, custom="c19", l1_masks=True, n_l1=(600, 8000), n_l2=(0, 0))
+
 LEVEL = collections.defaultdict(lambda: "proof")
 
 
@@ -286,7 +288,79 @@ def _purity(kind):
     return run
 
 
-CUSTOM = {"c08": custom_c08, "c09": _purity("c09"), "c10": _purity("c10")}
+def float_builds(pid, res, dbgs=(True,)):
+    """harness instantiated over `float` for the current tree -> {dbg: exe} or None (violation recorded)"""
+    out = {}
+    for dbg in dbgs:
+        ok, exe = vlib.harness_build(dbg, extra_flags=["-DHX_SC=float"], tag="_f")
+        if not ok:
+            rp = check.write_replay(pid, "harness-build", dict(
+                what="the correspondence harness instantiated over float no longer compiles against /repo",
+                compiler_output=exe[-6000:]))
+            res.violation(rp, "correspondence broken: float harness does not compile", no_input=True)
+            return None
+        out[dbg] = exe
+    return out
+
+
+def l1_float(res, reqs, exe, tag="f32"):
+    """single-precision correspondence: implementation over float vs the model at Float32"""
+    bad = []
+    impl, model = l1.run(reqs, exe, driver=[vlib.DRIVER, "f32"])
+    for (line, tags), a, b in zip(reqs, impl, model):
+        tk = line.split()
+        eq, why = l1.compare(a, b, (tk[2], tk[3]), tol_rel=1e-5)
+        res.add_cells([("L1", tag) + tuple(tags[:3]) + tuple(x.split("/")[0] for x in tags[3:]) + (a.split()[0],)])
+        if not eq:
+            bad.append(dict(request=line, tags=[tag] + tags, impl=a, model=b, why=why, scalar="float"))
+    return bad
+
+
+def custom_c19(builds, r, thorough, res):
+    """the API matrix (compile + link + run, exhaustive) and the alias correspondence over float"""
+    import apimatrix
+    m = apimatrix.build_and_run()
+    viol, bad = [], []
+    cells_by = collections.Counter()
+    for g in apimatrix.GROUPS:
+        names, _ = apimatrix.all_cells(g)
+        for sc in apimatrix.SCALARS:
+            for name, mut, _ in names:
+                for st in apimatrix.STORAGES:
+                    if mut and st == "c":
+                        continue
+                    res.add_cells([("matrix", name, g, sc, st)])
+                    cells_by[g] += 1
+    res.notes["api_matrix"] = dict(translation_units=m["tus"], cells_run=m["cells"], cells_enumerated=sum(cells_by.values()),
+                                   groups=list(apimatrix.GROUPS), scalars=apimatrix.SCALARS, storages=apimatrix.STORAGES,
+                                   alias_entries_from_Api_lean=len(apimatrix.alias_cells()[0]),
+                                   failing=len(m["failing"]), ok=m["ok"])
+    res.cov["exhaustive"] = True
+    res.cov["programs"] = sum(cells_by.values())
+    if m["missing"]:
+        viol.append(dict(property="C19", group="*", op=",".join(m["missing"]), output="table", tags=["api-table"],
+                         request="lean/ManifModel/Api.lean", what="alias listed in Api.lean has no entry in the generated matrix",
+                         err=float("inf"), tol=0.0))
+    for f in m["failing"]:
+        viol.append(dict(property="C19", group="%s<%s>" % (f["group"], f["scalar"]), op=f["entry"], output="instantiation",
+                         tags=["matrix", f["scalar"]], request=f["program"], what="does not compile/link/forward: " + f["diagnostic"][:1500],
+                         err=float("inf"), tol=0.0))
+    res.cov["samples"].append(dict(kind="matrix-cell", program="one function template per (entry, group, scalar, storage); e.g. "
+                                   "`G r_ = X * Y; same(r_.coeffs(), X.compose(Y, Ja, Jb).coeffs())` for SE3<float>, Eigen::Map<const SE3f>"))
+    n = 0
+    fb = float_builds("C19", res)
+    if fb:
+        with gen.float32():
+            reqs = []
+            for g in MODELLED:
+                reqs += l1.requests_for(r, g, (40 if thorough else 6), True, storages=("o", "m", "c"),
+                                        ops=l1.ALIASES + ["rplus", "lplus", "rminus", "lminus", "compose", "between", "inverse", "log", "exp", "act"])
+        bad += l1_float(res, reqs, fb[True])
+        n += len(reqs)
+    return bad, viol, n + m["cells"]
+
+
+CUSTOM = {"c19": custom_c19, "c08": custom_c08, "c09": _purity("c09"), "c10": _purity("c10")}
 
 
 def proof_cov(po):
